@@ -861,7 +861,7 @@ impl Prog {
         let mut n = start;
         for l in &self.lines {
             self.nums.insert(l.label, n);
-            n += step;
+            n = n.saturating_add(step);
         }
     }
 
